@@ -23,6 +23,7 @@ remember anything (Props/C14.v: history_independent, no_pedal_after_history, car
 """
 import json
 import math
+import signal
 from fractions import Fraction as F
 
 import core
@@ -30,8 +31,47 @@ from core import cz, cq, clist, ctuple, copt
 
 PAIRS = [(480, 500000), (96, 600000), (1000, 333333), (1, 10 ** 6), (384, 250000), (960, 1000000)]
 THRS = [0, 1, 63, 64, 126, 127]
-EXPECT_MIN = 19
+EXPECT_MIN = 42
 F32_TOL = F(1, 2 ** 20)  # relative tolerance for the float32 columns of note_array
+CPU_BUDGET = 60.0  # seconds of CPU time (not wall-clock) one implementation call may use
+
+
+class CpuBudgetExceeded(BaseException):
+    """Raised by the SIGVTALRM handler: the implementation used more CPU time than budgeted.
+    Derives from BaseException so that no `except Exception` of the code under test swallows it."""
+
+
+class cpu_guard:
+    """Budget of process CPU time (ITIMER_VIRTUAL: counts only while this process executes, so a
+    loaded machine cannot trip it)."""
+
+    def __init__(self, seconds=CPU_BUDGET):
+        self.seconds = seconds
+
+    def _handler(self, signum, frame):
+        raise CpuBudgetExceeded()
+
+    def __enter__(self):
+        self.old = signal.signal(signal.SIGVTALRM, self._handler)
+        signal.setitimer(signal.ITIMER_VIRTUAL, self.seconds)
+        return self
+
+    def __exit__(self, *a):
+        signal.setitimer(signal.ITIMER_VIRTUAL, 0)
+        signal.signal(signal.SIGVTALRM, self.old)
+        return False
+
+
+TIMEOUT = "did not terminate within %g s of CPU time" % CPU_BUDGET
+
+
+def guarded(fn, *a, **kw):
+    """fn(*a) under the CPU budget; -> (result, None) or (None, TIMEOUT)."""
+    try:
+        with cpu_guard():
+            return fn(*a, **kw), None
+    except CpuBudgetExceeded:
+        return None, TIMEOUT
 
 
 # ----------------------------------------------------------------------------
@@ -81,6 +121,8 @@ def gen_case(rng, tie_stream=False):
     span = rng.choice([4, 8, 16, 40]) * 16
     npitch = rng.choice([1, 1, 2, 2, 3, 5])
     pitches = rng.sample(range(0, 128), npitch)
+    if rng.random() < 0.25:
+        pitches[0] = rng.choice([0, 127])  # the ends of the MIDI range (field checks)
     notes = []
     for i in range(n):
         p = rng.choice(pitches)
@@ -93,9 +135,9 @@ def gen_case(rng, tie_stream=False):
             on = rng.choice([m["on"], m["off"], rng.randint(m["on"], m["off"]), m["off"] + rng.randint(0, 8),
                              max(0, m["on"] - rng.randint(0, 8))])
         else:
-            on = rng.randint(0, span)
+            on = rng.randint(0, span) if rng.random() < 0.9 else 0
         dur = rng.choice([0, 0, 1, 2, 4, 8, 16, rng.randint(0, 64), rng.randint(0, span)])
-        notes.append(dict(midi_pitch=p, on=on, off=on + dur, velocity=rng.randint(1, 127) if rng.random() < 0.95 else rng.choice([0, 127]),
+        notes.append(dict(midi_pitch=p, on=on, off=on + dur, velocity=rng.randint(1, 127) if rng.random() < 0.88 else rng.choice([0, 127, 1, 126]),
                           channel=rng.randint(0, 15) if rng.random() < 0.5 else rng.choice([0, 1]),
                           track=rng.choice([0, 0, 0, 1, 2, 5])))
     order = rng.random()
@@ -115,7 +157,41 @@ def gen_case(rng, tie_stream=False):
     scale = rng.choice([16, 16, 16, 16, 1, 4, 1024])
     if scale == 1:
         mpq = max(mpq, 20000)  # whole-second grid: keep the int32 tick columns of note_array below 2^31
-    return dict(notes=notes, ctrls=ctrls, thr=thr, thrs=thrs, ppq=ppq, mpq=mpq, scale=scale)
+    case = dict(notes=notes, ctrls=ctrls, thr=thr, thrs=thrs, ppq=ppq, mpq=mpq, scale=scale)
+    gen_shape(rng, case)
+    return case
+
+
+OPTIONAL_NOTE_KEYS = ["velocity", "channel", "track", "id"]
+
+
+def gen_shape(rng, case, carried=0.15):
+    """How the notes and controls are handed to the constructor (glue around the pedal code):
+    number types of the times, optional keys absent, PerformedNote objects instead of dicts,
+    stored ticks (note_on_tick / note_off_tick as load_performance_midi leaves them), notes that
+    already carry a sounding end, controls=None for an empty control list."""
+    r = rng.random()
+    if r < 0.55:
+        return
+    shape = dict(num=rng.choice(["float", "float", "np32", "np64", "int"]), obj=rng.random() < 0.25,
+                 none_ctrls=rng.random() < 0.5)
+    case["shape"] = shape
+    om_p = rng.choice([0.0, 0.15, 0.5])
+    tk = rng.random() < 0.3
+    so = rng.random() < carried
+    for x in case["notes"]:
+        om = [k for k in OPTIONAL_NOTE_KEYS if rng.random() < om_p]
+        if om:
+            x["omit"] = om
+        if tk and rng.random() < 0.8:
+            x["tk"] = True
+        if so and rng.random() < 0.8:
+            x["so"] = x["off"] + rng.choice([0, 0, 1, 8, 16, rng.randint(0, 64), rng.randint(0, 640)])
+    for c in case["ctrls"]:
+        if rng.random() < 0.15:
+            c["omit"] = rng.choice([["track"], ["channel"], ["track", "channel"]])
+        if rng.random() < 0.1:
+            c["npval"] = True
 
 
 def has_order_tie(case):
@@ -186,6 +262,39 @@ def spec_sound_off(case, thr, i):
     return spec_end(case, thr, i)[0]
 
 
+def end_reasons(case, thr):
+    """which clauses of the statement decide the sounding ends of this case under thr (for the evidence)"""
+    out = set()
+    ns, cs = case["notes"], case["ctrls"]
+    ped = [(c["t"], c["value"]) for c in cs if c["number"] == 64]
+    for i, x in enumerate(ns):
+        off = x["off"]
+        if not ped:
+            out.add("release:no_pedal_events")
+            continue
+        before = [(t, k, v) for k, (t, v) in enumerate(ped) if t < off]
+        if not before:
+            out.add("release:no_pedal_event_before_it")
+            continue
+        latest = max(before, key=lambda e: (e[0], e[1]))
+        if not latest[2] > thr:
+            out.add("release:pedal_up" + ("(value==threshold)" if latest[2] == thr else ""))
+            continue
+        if latest[2] == thr + 1:
+            out.add("pedal_down_by_one(value==threshold+1)")
+        lifts = [t for t, v in ped if t >= off and v <= thr]
+        strikes = [b["on"] for j, b in enumerate(ns) if j != i and b["midi_pitch"] == x["midi_pitch"] and b["on"] >= off]
+        if not lifts and not strikes:
+            out.add("open:pedal_never_lifted_pitch_never_struck_again")
+        elif strikes and (not lifts or min(strikes) <= min(lifts)):
+            out.add("restrike" + ("(exactly_at_release)" if min(strikes) == off else ""))
+            if any(b["on"] < off and b["on"] > x["on"] for j, b in enumerate(ns) if j != i and b["midi_pitch"] == x["midi_pitch"]):
+                out.add("restrike_after_a_strike_while_the_key_was_held")
+        else:
+            out.add("pedal_lift" + ("(exactly_at_release)" if min(lifts) == off else ""))
+    return out
+
+
 TICK_EPS = F(1, 1000)  # allowance for the float evaluation of 1e6 * ppq * t / mpq
 
 
@@ -197,16 +306,68 @@ def ticks_of(ppq, mpq, t):
 # implementation runner
 
 
-def build_part(case, thr=None):
+def numk(v, kind):
+    """the rational v (exactly representable in single precision) as the number type `kind`"""
+    import numpy as np
+
+    f = float(v)
+    assert F(f) == F(v), v
+    if kind == "np32":
+        assert F(float(np.float32(f))) == F(v), v
+        return np.float32(f)
+    if kind == "np64":
+        return np.float64(f)
+    if kind == "int" and f == int(f):
+        return int(f)
+    return f
+
+
+def lib_tick(t, ppq, mpq):
+    from partitura.utils.music import seconds_to_midi_ticks
+
+    return int(seconds_to_midi_ticks(float(t), mpq=mpq, ppq=ppq))
+
+
+def note_dict(x, k, sc, shape=None, ppq=480, mpq=500000):
+    """The dict handed to PerformedPart / PerformedNote for the abstract note x."""
+    kind = (shape or {}).get("num", "float")
+    d = dict(id="n%d" % k, midi_pitch=x["midi_pitch"], note_on=numk(F(x["on"], sc), kind), note_off=numk(F(x["off"], sc), kind),
+             velocity=x["velocity"], channel=x["channel"], track=x["track"])
+    if x.get("tk"):
+        d["note_on_tick"] = lib_tick(F(x["on"], sc), ppq, mpq)
+        d["note_off_tick"] = lib_tick(F(x["off"], sc), ppq, mpq)
+    if "so" in x:
+        d["sound_off"] = numk(F(x["so"], sc), kind)
+    for key in x.get("omit", ()):
+        del d[key]
+    return d
+
+
+def ctrl_dict(c, sc, shape=None):
+    import numpy as np
+
+    kind = (shape or {}).get("num", "float")
+    d = dict(number=c["number"], time=numk(F(c["t"], sc), kind), value=np.int64(c["value"]) if c.get("npval") else c["value"],
+             track=c["track"], channel=c["channel"])
+    for key in c.get("omit", ()):
+        del d[key]
+    return d
+
+
+def make_part(notes, ctrls, thr, ppq, mpq, sc, shape=None):
     import partitura.performance as P
 
-    sc = float(case["scale"])
-    notes = [dict(id="n%d" % k, midi_pitch=x["midi_pitch"], note_on=x["on"] / sc, note_off=x["off"] / sc,
-                  velocity=x["velocity"], channel=x["channel"], track=x["track"]) for k, x in enumerate(case["notes"])]
-    ctrls = [dict(number=c["number"], time=c["t"] / sc, value=c["value"], track=c["track"], channel=c["channel"])
-             for c in case["ctrls"]]
-    return P.PerformedPart(notes, controls=ctrls, sustain_pedal_threshold=case["thr"] if thr is None else thr,
-                           ppq=case["ppq"], mpq=case["mpq"])
+    nd = [note_dict(x, k, sc, shape, ppq, mpq) for k, x in enumerate(notes)]
+    if shape and shape.get("obj"):
+        nd = [P.PerformedNote(d) for d in nd]
+    cd = [ctrl_dict(c, sc, shape) for c in ctrls]
+    if shape and shape.get("none_ctrls") and not cd:
+        cd = None
+    return P.PerformedPart(nd, controls=cd, sustain_pedal_threshold=thr, ppq=ppq, mpq=mpq)
+
+
+def build_part(case, thr=None):
+    return make_part(case["notes"], case["ctrls"], case["thr"] if thr is None else thr, case["ppq"], case["mpq"], case["scale"], case.get("shape"))
 
 
 def so_column(pp):
@@ -215,13 +376,14 @@ def so_column(pp):
 
 def run_impl(case):
     """-> dict(obs0=None|[Fraction], hist=[[Fraction]], err=str|None, na=..., rebuilt=...)"""
-    out = dict(obs0=None, hist=[], err=None, na=None, rebuilt=None, fresh=[])
+    out = dict(obs0=None, hist=[], err=None, na=None, rebuilt=None, fresh=[], vel=None)
     try:
         pp = build_part(case)
     except Exception as e:
         out["err"] = "%s: %s" % (type(e).__name__, e)
         return out
     out["obs0"] = so_column(pp)
+    out["vel"] = [int(n["velocity"]) for n in pp.notes]
     try:
         na = pp.note_array()
         out["na"] = [dict(onset_sec=F(float(r["onset_sec"])), duration_sec=F(float(r["duration_sec"])),
@@ -291,6 +453,8 @@ def oracle(case, res, tie):
     # note array
     ppq, mpq = case["ppq"], case["mpq"]
     na = res["na"]
+    # a note built without a velocity key has the velocity the part gave it (the default is not part of the property)
+    vels = [res["vel"][i] if "velocity" in x.get("omit", ()) else x["velocity"] for i, x in enumerate(ns)] if res.get("vel") and len(res["vel"]) == len(ns) else [x["velocity"] for x in ns]
     if na is not None:
         if len(na) != len(ns):
             bad.append("note_array has %d rows for %d notes" % (len(na), len(ns)))
@@ -298,8 +462,8 @@ def oracle(case, res, tie):
             for i, r in enumerate(na):
                 on = F(ns[i]["on"], sc)
                 so = res["obs0"][i]
-                if r["pitch"] != ns[i]["midi_pitch"] or r["velocity"] != ns[i]["velocity"]:
-                    bad.append("note_array row %d: pitch/velocity %d/%d, note has %d/%d" % (i, r["pitch"], r["velocity"], ns[i]["midi_pitch"], ns[i]["velocity"]))
+                if r["pitch"] != ns[i]["midi_pitch"] or r["velocity"] != vels[i]:
+                    bad.append("note_array row %d: pitch/velocity %d/%d, note has %d/%d" % (i, r["pitch"], r["velocity"], ns[i]["midi_pitch"], vels[i]))
                 if abs(r["onset_sec"] - on) > F32_TOL * max(1, abs(on)):
                     bad.append("note_array row %d: onset_sec %s, note_on %s" % (i, float(r["onset_sec"]), float(on)))
                 if abs(r["duration_sec"] - (so - on)) > F32_TOL * max(1, abs(so)):
@@ -319,10 +483,10 @@ def oracle(case, res, tie):
             for i, r in enumerate(rb):
                 on = F(ns[i]["on"], sc)
                 so = res["obs0"][i]
-                if (r["pitch"] != ns[i]["midi_pitch"] or r["velocity"] != ns[i]["velocity"]
+                if (r["pitch"] != ns[i]["midi_pitch"] or r["velocity"] != vels[i]
                         or abs(r["on"] - on) > F32_TOL * max(1, abs(on)) or abs(r["so"] - so) > F32_TOL * max(1, abs(so))):
                     bad.append("from_note_array(note_array()) note %d: pitch %d velocity %d onset %s sounding end %s; original %d %d %s %s"
-                               % (i, r["pitch"], r["velocity"], float(r["on"]), float(r["so"]), ns[i]["midi_pitch"], ns[i]["velocity"], float(on), float(so)))
+                               % (i, r["pitch"], r["velocity"], float(r["on"]), float(r["so"]), ns[i]["midi_pitch"], vels[i], float(on), float(so)))
     return bad
 
 
@@ -330,8 +494,8 @@ def oracle(case, res, tie):
 # Coq terms
 
 
-def c_note(x, sc):
-    return "(mkNote %s %s %s %s)" % (cz(x["midi_pitch"]), cz(x["velocity"]), cq(F(x["on"], sc)), cq(F(x["off"], sc)))
+def c_note(x, sc, vel=None):
+    return "(mkNote %s %s %s %s)" % (cz(x["midi_pitch"]), cz(x["velocity"] if vel is None else vel), cq(F(x["on"], sc)), cq(F(x["off"], sc)))
 
 
 def c_ctrl(c, sc):
@@ -357,8 +521,212 @@ def term_note_array(case, res):
         off = F(case["notes"][i]["off"], sc)
         dt = r["duration_tick"] if res["obs0"][i] == off else None
         rows.append(ctuple([cz(r["pitch"]), cz(r["velocity"]), cz(r["onset_tick"]), copt(dt, cz)]))
-    return ctuple([cz(ppq), cz(mpq), cz(case["thr"]), clist([c_note(x, sc) for x in case["notes"]]),
+    return ctuple([cz(ppq), cz(mpq), cz(case["thr"]), clist([c_note(x, sc, res["vel"][i]) for i, x in enumerate(case["notes"])]),
                    clist([c_ctrl(c, sc) for c in case["ctrls"]]), clist(rows)])
+
+
+def c_ndict(x, sc, ppq, mpq):
+    """the note dict of the abstract note x as the model's ndict (None = key absent)"""
+    return "(mkND %s %s %s %s %s %s %s)" % (
+        cz(x["midi_pitch"]), copt(F(x["on"], sc), cq), copt(F(x["off"], sc), cq), copt(F(x["so"], sc) if "so" in x else None, cq),
+        copt(None if "velocity" in x.get("omit", ()) else x["velocity"], cz),
+        copt(lib_tick(F(x["on"], sc), ppq, mpq) if x.get("tk") else None, cz), copt(lib_tick(F(x["off"], sc), ppq, mpq) if x.get("tk") else None, cz))
+
+
+def term_pp_new(case, res):
+    """PerformedPart built from the dicts as handed over (optional keys absent, carried sounding
+    ends, stored ticks): sound_off column and the integer columns of note_array."""
+    sc = case["scale"]
+    ppq, mpq = case["ppq"], case["mpq"]
+    rows = []
+    for i, r in enumerate(res["na"]):
+        off = F(case["notes"][i]["off"], sc)
+        dt = r["duration_tick"] if res["obs0"][i] == off else None
+        rows.append(ctuple([cz(r["pitch"]), cz(r["velocity"]), cz(r["onset_tick"]), copt(dt, cz)]))
+    return ctuple([cz(ppq), cz(mpq), cz(case["thr"]), clist([c_ndict(x, sc, ppq, mpq) for x in case["notes"]]),
+                   clist([c_ctrl(c, sc) for c in case["ctrls"]]), "(Some %s)" % ctuple([c_qlist(res["obs0"]), clist(rows)])])
+
+
+# ----------------------------------------------------------------------------
+# PerformedNote: field validation at construction and on assignment
+#
+# A case: "d" (pitch, on, off in 1/16 s; optional velocity, so, on_tick, off_tick; "drop": keys
+# removed to exercise the defaults) and "edits": [(key, value)] applied with note[key] = value.
+
+PN_SC = 16
+TIME_KEYS = ("note_on", "note_off", "sound_off")
+
+
+def gen_pnote_case(rng):
+    pitch = rng.choice([0, 127, 1, 126, rng.randint(0, 127), rng.randint(0, 127)])
+    on = rng.choice([0, 0, 1, rng.randint(0, 200), rng.randint(0, 200)])
+    off = on + rng.choice([0, 0, 1, 4, rng.randint(0, 100)])
+    d = dict(midi_pitch=pitch, note_on=on, note_off=off)
+    if rng.random() < 0.8:
+        d["velocity"] = rng.choice([0, 127, 1, rng.randint(0, 127), rng.randint(0, 127)])
+    if rng.random() < 0.4:
+        d["sound_off"] = off + rng.choice([0, 0, 1, 16, rng.randint(0, 300)])
+    r = rng.random()
+    k = rng.choice([0, 0, 1, rng.randint(0, 5000)])
+    if r < 0.25:
+        d["note_on_tick"], d["note_off_tick"] = k, k + rng.choice([0, 0, 1, 100])
+    elif r < 0.33:
+        d["note_on_tick"] = k
+    elif r < 0.4:
+        d["note_off_tick"] = k
+    if rng.random() < 0.35:  # one field outside what the statement is about
+        which = rng.choice(["pitch", "velocity", "on", "off", "so", "on_tick", "off_tick", "no_on", "no_off"])
+        if which == "pitch":
+            d["midi_pitch"] = rng.choice([-1, 128, 200])
+        elif which == "velocity":
+            d["velocity"] = rng.choice([-1, 128])
+        elif which == "on":
+            d["note_on"] = rng.choice([-1, -16])
+        elif which == "off":
+            d["note_off"] = d["note_on"] - rng.choice([1, 1, 16]) if d["note_on"] > 0 else -1
+        elif which == "so":
+            d["sound_off"] = d["note_off"] - rng.choice([1, 1, 5])
+        elif which == "on_tick":
+            d["note_on_tick"] = -rng.choice([1, 5])
+        elif which == "off_tick":
+            d["note_on_tick"] = k + 1
+            d["note_off_tick"] = rng.choice([k, 0, -1])
+        elif which == "no_on":
+            del d["note_on"]
+        else:
+            del d["note_off"]
+    edits = []
+    for _ in range(rng.choice([0, 1, 2, 3, 4])):
+        key = rng.choice(["note_off", "note_off", "note_off", "sound_off", "sound_off", "note_on", "velocity", "pitch", "note_on_tick",
+                          "note_off_tick", "track", "channel", "id", "midi_pitch", "foo"])
+        if key in TIME_KEYS:
+            v = rng.choice([on, off, off + 1, off + 16, max(0, on - 1), on + 1, 0, -1, rng.randint(0, 400), d.get("sound_off", off), d.get("sound_off", off) + 1])
+        elif key in ("velocity", "pitch", "midi_pitch"):
+            v = rng.choice([0, 127, -1, 128, rng.randint(0, 127)])
+        elif key in ("note_on_tick", "note_off_tick"):
+            v = rng.choice([0, -1, k, k + 1, k - 1, rng.randint(0, 5000)])
+        else:
+            v = rng.randint(0, 15)
+        edits.append([key, v])
+    return dict(d=d, edits=edits)
+
+
+def pn_fields(n):
+    """the stored fields of a PerformedNote as exact values: (pitch, on, off, so, velocity, on tick, off tick)"""
+    return dict(pitch=int(n["midi_pitch"]), on=F(float(n["note_on"])), off=F(float(n["note_off"])), so=F(float(n["sound_off"])),
+                vel=int(n["velocity"]), ont=None if n["note_on_tick"] is None else int(n["note_on_tick"]),
+                offt=None if n["note_off_tick"] is None else int(n["note_off_tick"]))
+
+
+def run_pnote(case):
+    """-> (fields after construction | None, [fields after the assignment | None], error texts)"""
+    import partitura.performance as P
+
+    d = dict(case["d"])
+    for key in TIME_KEYS:
+        if key in d:
+            d[key] = d[key] / PN_SC
+    errs = []
+    try:
+        n = P.PerformedNote(d)
+        f0 = pn_fields(n)
+    except Exception as e:
+        return None, [], ["%s: %s" % (type(e).__name__, e)]
+    outs = []
+    for key, v in case["edits"]:
+        try:
+            n[key] = v / PN_SC if key in TIME_KEYS else v
+            outs.append(pn_fields(n))
+            errs.append(None)
+        except Exception as e:
+            outs.append(None)
+            errs.append("%s: %s" % (type(e).__name__, e))
+    return f0, outs, errs
+
+
+def pn_dict_valid(d):
+    """what the statement presupposes of a note: 0 <= onset <= release, MIDI pitch and velocity,
+    a carried sounding end not before the release, stored ticks non-negative and ordered"""
+    if "note_on" not in d or "note_off" not in d:
+        return False
+    ok = 0 <= d["midi_pitch"] <= 127 and 0 <= d.get("velocity", 64) <= 127 and 0 <= d["note_on"] <= d["note_off"]
+    ok = ok and d.get("sound_off", d["note_off"]) >= d["note_off"] and d.get("note_on_tick", 0) >= 0
+    if "note_off_tick" in d:
+        ok = ok and d["note_off_tick"] >= max(0, d.get("note_on_tick", 0))
+    return ok
+
+
+def oracle_pnote(case, f0, outs):
+    """Direct oracle: a note the statement is about is accepted and stored as given; an assignment
+    that keeps 0 <= onset <= release <= sounding end (and MIDI ranges) is accepted and stored.
+    Rejections of anything else are not judged."""
+    d = case["d"]
+    bad = []
+    if not pn_dict_valid(d):
+        return bad
+    if f0 is None:
+        return ["PerformedNote(%s) raised for a note with 0 <= onset <= release" % json.dumps(d, sort_keys=True)]
+    exp = dict(pitch=d["midi_pitch"], on=F(d["note_on"], PN_SC), off=F(d["note_off"], PN_SC))
+    if "velocity" in d:
+        exp["vel"] = d["velocity"]
+    if "sound_off" in d:
+        exp["so"] = F(d["sound_off"], PN_SC)
+    for k_, v in exp.items():
+        if f0[k_] != v:
+            bad.append("PerformedNote(%s) stores %s = %s" % (json.dumps(d, sort_keys=True), k_, f0[k_]))
+    if f0["so"] < f0["off"]:
+        bad.append("PerformedNote(%s): sound_off %s < note_off %s" % (json.dumps(d, sort_keys=True), float(f0["so"]), float(f0["off"])))
+    cur = f0
+    name = dict(note_on="on", note_off="off", sound_off="so", velocity="vel", note_on_tick="ont", note_off_tick="offt")
+    for (key, v), o in zip(case["edits"], outs):
+        val = F(v, PN_SC) if key in TIME_KEYS else v
+        if key == "note_off":
+            valid = val >= cur["on"]
+        elif key == "sound_off":
+            valid = val >= cur["off"]
+        elif key == "note_on":
+            valid = 0 <= val <= cur["off"]
+        elif key in ("velocity", "pitch"):
+            valid = 0 <= val <= 127
+        elif key == "note_on_tick":
+            valid = 0 <= val and (cur["offt"] is None or val <= cur["offt"])
+        elif key == "note_off_tick":
+            valid = val >= max(0, cur["ont"] if cur["ont"] is not None else 0)
+        else:
+            valid = key in ("track", "channel", "id")
+        if valid:
+            if o is None:
+                bad.append("note[%r] = %s raised on a note with onset %s, release %s, sounding end %s" % (key, float(val), float(cur["on"]), float(cur["off"]), float(cur["so"])))
+            elif key in name and o[name[key]] != val:
+                bad.append("note[%r] = %s stored %s" % (key, float(val), o[name[key]]))
+        if o is not None:
+            cur = o
+    return bad
+
+
+def c_pn(f):
+    return "(mkPN %s %s %s %s %s %s %s)" % (cz(f["pitch"]), cq(f["on"]), cq(f["off"]), cq(f["so"]), cz(f["vel"]), copt(f["ont"], cz), copt(f["offt"], cz))
+
+
+def c_edit(key, v):
+    if key in TIME_KEYS:
+        return "(%s %s)" % (dict(note_on="EOn", note_off="EOff", sound_off="ESo")[key], cq(F(v, PN_SC)))
+    if key in ("velocity", "pitch", "note_on_tick", "note_off_tick"):
+        return "(%s %s)" % (dict(velocity="EVel", pitch="EPitch", note_on_tick="EOnTick", note_off_tick="EOffTick")[key], cz(v))
+    return "EOther" if key in ("track", "channel", "id") else "EBadKey"
+
+
+def term_pnote(case, f0, outs):
+    d = case["d"]
+
+    def q(key):
+        return copt(F(d[key], PN_SC) if key in d else None, cq)
+
+    nd = "(mkND %s %s %s %s %s %s %s)" % (cz(d["midi_pitch"]), q("note_on"), q("note_off"), q("sound_off"), copt(d.get("velocity"), cz),
+                                          copt(d.get("note_on_tick"), cz), copt(d.get("note_off_tick"), cz))
+    return ctuple([nd, clist([c_edit(k_, v) for k_, v in case["edits"]]), copt(f0, c_pn), clist([copt(o, c_pn) for o in outs])])
+
+
 
 
 # ----------------------------------------------------------------------------
@@ -405,7 +773,11 @@ def gen_step(rng, st, tie_stream):
     has_ped = any(c["number"] == 64 for c in st["ctrls"])
     ped_times = {c["t"] for c in st["ctrls"] if c["number"] == 64}
     r = rng.random()
-    if r < 0.12:
+    if r < 0.06:
+        # the part's ppq / mpq attributes changed: note_array() must report ticks under the current ones
+        ppq, mpq = rng.choice(PAIRS) if rng.random() < 0.7 else (rng.randint(1, 2000), rng.randint(20000, 2 * 10 ** 6))
+        return dict(op="ppq", ppq=ppq, mpq=max(mpq, 20000))
+    if r < 0.15:
         return dict(op="thr", thr=pick_thr())
     if r < 0.52:
         hows = ["replace", "replace", "extend", "extend", "delete", "clear"]
@@ -443,8 +815,11 @@ def state_view(st, sc):
 
 
 def initial_state(case):
-    return dict(notes=[{k: v for k, v in x.items() if k != "so"} for x in case["notes"]],
-                ctrls=[dict(c) for c in case["ctrls"]], thr=case["thr"], ppq=case["ppq"], mpq=case["mpq"])
+    notes = [{k: v for k, v in x.items() if k != "so"} for x in case["notes"]]
+    if case.get("midi") and [m for _, m in case["midi"]["tempos"]] != [500000]:
+        for x in notes:
+            x["tk_stale"] = True  # ticks of a file with another tempo map: seconds and ticks do not agree under the part's single mpq
+    return dict(notes=notes, ctrls=[dict(c) for c in case["ctrls"]], thr=case["thr"], ppq=case["ppq"], mpq=case["mpq"])
 
 
 def abs_apply(st, step, sc, observed=None):
@@ -454,6 +829,11 @@ def abs_apply(st, step, sc, observed=None):
     op = step["op"]
     if op == "thr":
         st["thr"] = step["thr"]
+    elif op == "ppq":
+        st["ppq"], st["mpq"] = step["ppq"], step["mpq"]
+        for x in st["notes"]:
+            if x.get("tk"):
+                x["tk_stale"] = True  # the stored ticks were made under the old ppq / mpq
     elif op == "ctrls":
         how = step["how"]
         if how == "replace":
@@ -477,6 +857,8 @@ def abs_apply(st, step, sc, observed=None):
         elif how == "on":
             x = ns[step["idx"] % len(ns)]
             x["on"] = max(0, x["off"] - step["d"])
+            if x.get("tk"):
+                x["tk_stale"] = True  # a stored onset tick no longer belongs to the onset
         elif how == "add":
             ns.append(dict(step["note"]))
         elif how == "del":
@@ -505,6 +887,8 @@ def abs_apply(st, step, sc, observed=None):
             if e.denominator != 1:
                 return None  # an open end the implementation put off the time grid: the history ends here
             x["off"] = int(e)
+            for key in ("tk", "tk_stale", "omit", "so"):
+                x.pop(key, None)  # the rebuilt notes are plain
         st["ctrls"] = []
         st["thr"] = 64
         st["ppq"], st["mpq"] = 480, 500000
@@ -513,36 +897,21 @@ def abs_apply(st, step, sc, observed=None):
     return st
 
 
-def note_dict(x, k, sc):
-    d = dict(id="n%d" % k, midi_pitch=x["midi_pitch"], note_on=x["on"] / sc, note_off=x["off"] / sc,
-             velocity=x["velocity"], channel=x["channel"], track=x["track"])
-    if "so" in x:
-        d["sound_off"] = x["so"] / sc
-    return d
-
-
-def ctrl_dict(c, sc):
-    return dict(number=c["number"], time=c["t"] / sc, value=c["value"], track=c["track"], channel=c["channel"])
-
-
-def build_state(st, sc, carried=None):
-    """A fresh PerformedPart from plain dicts for an abstract state (carried: notes with "so")."""
-    import partitura.performance as P
-
-    sc = float(sc)
-    notes = [note_dict(x, k, sc) for k, x in enumerate(carried if carried is not None else st["notes"])]
-    return P.PerformedPart(notes, controls=[ctrl_dict(c, sc) for c in st["ctrls"]], sustain_pedal_threshold=st["thr"],
-                           ppq=st["ppq"], mpq=st["mpq"])
+def build_state(st, sc, carried=None, shape=None):
+    """A fresh PerformedPart from dicts for an abstract state (carried: the notes as generated, with "so" / "tk" / "omit")."""
+    return make_part(carried if carried is not None else st["notes"], st["ctrls"], st["thr"], st["ppq"], st["mpq"], sc, shape)
 
 
 def impl_apply(pp, step, sc, serial):
     """The same step on the real objects; returns the part to go on with."""
     import partitura.performance as P
 
-    sc = float(sc)
     op = step["op"]
     if op == "thr":
         pp.sustain_pedal_threshold = step["thr"]
+        return pp
+    if op == "ppq":
+        pp.ppq, pp.mpq = step["ppq"], step["mpq"]
         return pp
     if op == "ctrls":
         how = step["how"]
@@ -599,9 +968,12 @@ def impl_apply(pp, step, sc, serial):
 
 
 def observe(pp):
+    na = pp.note_array()
     return dict(on=[F(float(n["note_on"])) for n in pp.notes], off=[F(float(n["note_off"])) for n in pp.notes],
                 pitch=[int(n["midi_pitch"]) for n in pp.notes], so=[F(float(n["sound_off"])) for n in pp.notes],
-                thr=pp.sustain_pedal_threshold)
+                vel=[int(n["velocity"]) for n in pp.notes], thr=pp.sustain_pedal_threshold, ppq=pp.ppq, mpq=pp.mpq,
+                na=[dict(onset_sec=F(float(r["onset_sec"])), duration_sec=F(float(r["duration_sec"])), onset_tick=int(r["onset_tick"]),
+                         duration_tick=int(r["duration_tick"]), pitch=int(r["pitch"]), velocity=int(r["velocity"])) for r in na])
 
 
 def oracle_state(st, obs, sc, label):
@@ -633,11 +1005,47 @@ def oracle_state(st, obs, sc, label):
             if stated and so != exp:
                 bad.append("%s note %d (pitch %d, on %s, off %s, threshold %d): sound_off %s, the pedal dictates %s"
                            % (label, i, ns[i]["midi_pitch"], ns[i]["on"] / sc, float(off), thr, float(so), float(exp)))
+    if not bad:
+        bad += oracle_state_na(st, obs, sc, label)
     return bad, tie
 
 
+def oracle_state_na(st, obs, sc, label):
+    """note_array() of the part in its current state: onsets in seconds and ticks agree under the
+    part's CURRENT ppq / mpq, durations in seconds reach the current sounding end, durations in ticks
+    agree with them where no pedal extends the note.  Ticks are not judged for a note that carries
+    stored ticks (note_on_tick) which the history has made stale (onset edited, ppq / mpq changed,
+    file with another tempo map)."""
+    bad = []
+    ns = st["notes"]
+    na = obs["na"]
+    ppq, mpq = st["ppq"], st["mpq"]
+    if (obs["ppq"], obs["mpq"]) != (ppq, mpq):
+        return ["%s: the part's ppq / mpq are %s / %s, the steps lead to %s / %s" % (label, obs["ppq"], obs["mpq"], ppq, mpq)]
+    if len(na) != len(ns):
+        return ["%s: note_array has %d rows for %d notes" % (label, len(na), len(ns))]
+    for i, r in enumerate(na):
+        on, off, so = F(ns[i]["on"], sc), F(ns[i]["off"], sc), obs["so"][i]
+        if r["pitch"] != ns[i]["midi_pitch"] or r["velocity"] != obs["vel"][i]:
+            bad.append("%s note_array row %d: pitch/velocity %d/%d, note has %d/%d" % (label, i, r["pitch"], r["velocity"], ns[i]["midi_pitch"], obs["vel"][i]))
+        if abs(r["onset_sec"] - on) > F32_TOL * max(1, abs(on)):
+            bad.append("%s note_array row %d: onset_sec %s, note_on %s" % (label, i, float(r["onset_sec"]), float(on)))
+        if abs(r["duration_sec"] - (so - on)) > F32_TOL * max(1, abs(so)):
+            bad.append("%s note_array row %d: duration_sec %s, sounding end - onset = %s" % (label, i, float(r["duration_sec"]), float(so - on)))
+        if ns[i].get("tk") and ns[i].get("tk_stale"):
+            continue
+        if abs(r["onset_tick"] - ticks_of(ppq, mpq, on)) > F(1, 2) + TICK_EPS:
+            bad.append("%s note_array row %d: onset_tick %d, onset %s s is %s ticks at ppq %d mpq %d"
+                       % (label, i, r["onset_tick"], float(on), float(ticks_of(ppq, mpq, on)), ppq, mpq))
+        if so == off and abs(r["duration_tick"] - ticks_of(ppq, mpq, so - on)) > 1 + TICK_EPS:
+            bad.append("%s note_array row %d: duration_tick %d, the duration %s s is %s ticks at ppq %d mpq %d (no pedal extends the note)"
+                       % (label, i, r["duration_tick"], float(so - on), float(ticks_of(ppq, mpq, so - on)), ppq, mpq))
+    return bad
+
+
 FAIL_CLASSES = ["< note_off", "no pedal events in the controls", "differs from the release", "the pedal dictates", "depends on the history",
-                "raised", "are not the ones the steps lead to"]
+                "raised", "are not the ones the steps lead to", "onset_tick", "duration_tick", "duration_sec", "onset_sec", "pitch/velocity",
+                "ppq / mpq", "rows for", "did not terminate"]
 
 
 def fail_class(msg):
@@ -647,17 +1055,21 @@ def fail_class(msg):
     return msg[:25]
 
 
-def judge_hist(case):
+def judge_hist_raw(case):
     """-> (failures, trace, tie); trace = [(abstract state, observation)] after construction and after every applied step."""
     sc = case["scale"]
     st = initial_state(case)
     trace = []
     any_tie = False
     try:
-        pp = build_state(st, sc, carried=case["notes"])
+        if case.get("midi"):
+            pp = load_midi_part(case)
+        else:
+            pp = build_state(st, sc, carried=case["notes"], shape=case.get("shape"))
+        obs = observe(pp)
     except Exception as e:
-        return ["construction (notes with 0 <= onset <= release <= carried sound_off) raised %s: %s" % (type(e).__name__, e)], trace, any_tie
-    obs = observe(pp)
+        return ["construction (%s) raised %s: %s" % ("load_performance_midi of a file with these notes and controls" if case.get("midi") else
+                                                     "notes with 0 <= onset <= release <= carried sound_off", type(e).__name__, e)], trace, any_tie
     bad, tie = oracle_state(st, obs, sc, "after construction")
     any_tie |= tie
     trace.append((st, obs))
@@ -691,6 +1103,125 @@ def judge_hist(case):
         if bad:
             return bad, trace, any_tie
     return [], trace, any_tie
+
+
+def judge_hist(case):
+    r, tmo = guarded(judge_hist_raw, case)
+    if tmo:
+        return ["a history of operations on a performed part " + tmo], [], False
+    return r
+
+
+MIDI_PPQ = 512  # 1 tick = 1/1024 s at mpq 500000, 1/512 s at 1000000, 1/2048 s at 250000: all times exact
+MIDI_UNITS = {250000: 1, 500000: 2, 1000000: 4}  # 1/2048 s per tick
+MIDI_SC = 2048
+
+
+def midi_units(tempos, tick):
+    """the time of a tick in 1/2048 s under the tempo map [[tick, mpq], ...] (first tick 0)"""
+    u = 0
+    for k, (t0, m) in enumerate(tempos):
+        t1 = tempos[k + 1][0] if k + 1 < len(tempos) else None
+        if t1 is None or tick < t1:
+            return u + (tick - t0) * MIDI_UNITS[m]
+        u += (t1 - t0) * MIDI_UNITS[m]
+    return u
+
+
+def gen_midi_hist_case(rng):
+    """A history that starts from a part LOADED by load_performance_midi from a type-1 file (tempo map
+    in the first track, notes and controls in the second): the loader builds the part, then moves all
+    times according to the tempo map -- the sounding ends must be those of the times the part ends up with."""
+    g = 64
+    r = rng.random()
+    t1, t2 = rng.randint(1, 12) * g, rng.randint(13, 30) * g
+    if r < 0.3:
+        tempos = [[0, 500000]]
+    elif r < 0.45:
+        tempos = [[0, rng.choice([1000000, 250000])]]
+    elif r < 0.8:
+        a, b = rng.sample([500000, 1000000, 250000], 2)
+        tempos = [[0, a], [t1, b]]
+    else:
+        a, b = rng.sample([500000, 1000000, 250000], 2)
+        tempos = [[0, a], [t1, b], [t2, rng.choice([a, 500000])]]
+    pitches = rng.sample(range(0, 128), rng.choice([1, 1, 2, 3]))
+    notes = []
+    for _ in range(rng.choice([1, 2, 3, 4, 6, 8])):
+        p = rng.choice(pitches)
+        ton = rng.randint(0, 32) * g + rng.choice([0, 0, 0, 1, 17])
+        toff = ton + rng.choice([0, g, g, 2 * g, 4 * g, rng.randint(0, 8 * g)])
+        busy = {x["channel"] for x in notes if x["midi_pitch"] == p and x["ton"] <= toff and ton <= x["toff"]}
+        free = [ch for ch in range(16) if ch not in busy]
+        if not free:
+            continue
+        notes.append(dict(midi_pitch=p, ton=ton, toff=toff, velocity=rng.randint(1, 127), channel=rng.choice(free[:3]), track=0, tk=True))
+    for x in notes:
+        x["on"], x["off"] = midi_units(tempos, x["ton"]), midi_units(tempos, x["toff"])
+    notes.sort(key=lambda x: (x["on"], x["midi_pitch"], x["off"], x["channel"]))
+    ctrls = []
+    used = set()
+    hi = max(x["toff"] for x in notes)
+    marks = sorted({x["ton"] for x in notes} | {x["toff"] for x in notes})
+    for _ in range(rng.choice([1, 2, 3, 4, 6, 8])):
+        tt = rng.choice([rng.choice(marks), rng.choice(marks) + rng.choice([-1, 1, g // 2]), rng.randint(0, hi + 4 * g), hi + rng.randint(1, 4 * g), 0])
+        tt = max(0, tt)
+        num = 64 if rng.random() < 0.8 else rng.choice([1, 7, 66, 67])
+        if num == 64:
+            while tt in used:
+                tt += 1
+            used.add(tt)
+        ctrls.append(dict(number=num, tt=tt, value=rng.choice([0, 0, 127, 127, 63, 64, 65, rng.randint(0, 127)]), track=0, channel=rng.randint(0, 15)))
+    if rng.random() < 0.6 and 0 not in used:
+        ctrls.append(dict(number=64, tt=0, value=127, track=0, channel=0))
+    ctrls.sort(key=lambda c: c["tt"])
+    for c in ctrls:
+        c["t"] = midi_units(tempos, c["tt"])
+    c = dict(notes=notes, ctrls=ctrls, thr=64, ppq=MIDI_PPQ, mpq=500000, scale=MIDI_SC, midi=dict(tempos=tempos, merge=rng.random() < 0.3))
+    st = initial_state(c)
+    steps = []
+    for _ in range(rng.choice([0, 1, 1, 2, 3])):
+        step = gen_step(rng, st, False)
+        st2 = abs_apply(st, step, MIDI_SC)
+        if st2 is None:
+            break
+        steps.append(step)
+        st = st2
+    c["steps"] = steps
+    return c
+
+
+def load_midi_part(case):
+    """Write the case's notes / controls (ticks) and tempo map to a type-1 mido file in memory and
+    load it with partitura's load_performance_midi; -> the PerformedPart holding the notes."""
+    import mido
+    from partitura.io.importmidi import load_performance_midi
+
+    mid = mido.MidiFile(type=1, ticks_per_beat=MIDI_PPQ)
+    t0 = mido.MidiTrack()
+    last = 0
+    for tick, mpq in case["midi"]["tempos"]:
+        t0.append(mido.MetaMessage("set_tempo", tempo=mpq, time=tick - last))
+        last = tick
+    mid.tracks.append(t0)
+    ev = []
+    for k, x in enumerate(case["notes"]):
+        ev.append((x["ton"], 2, k, mido.Message("note_on", note=x["midi_pitch"], velocity=x["velocity"], channel=x["channel"])))
+        ev.append((x["toff"], 0 if x["toff"] > x["ton"] else 3, k, mido.Message("note_off", note=x["midi_pitch"], velocity=0, channel=x["channel"])))
+    for k, c in enumerate(case["ctrls"]):
+        ev.append((c["tt"], 1, k, mido.Message("control_change", control=c["number"], value=c["value"], channel=c["channel"])))
+    ev.sort(key=lambda e: e[:3])
+    t1 = mido.MidiTrack()
+    last = 0
+    for tick, _, _, msg in ev:
+        t1.append(msg.copy(time=tick - last))
+        last = tick
+    mid.tracks.append(t1)
+    perf = load_performance_midi(mid, merge_tracks=bool(case["midi"].get("merge")))
+    parts = [pp for pp in perf.performedparts if len(pp.notes) > 0]
+    if len(parts) != 1:
+        raise RuntimeError("load_performance_midi returned %d parts with notes" % len(parts))
+    return parts[0]
 
 
 def gen_hist_case(rng, tie_stream=False):
@@ -764,6 +1295,8 @@ def terms_steps(case, trace):
                 start = (after["notes"], [F(x["off"], sc) for x in after["notes"]], after["ctrls"], after["thr"])
                 csteps, cobs = [], [trace[k + 1][1]]
                 continue
+        if s_["op"] == "ppq":
+            continue  # the model's part has no ppq / mpq; the sound_off column is untouched (judged in Python)
         csteps.append(c_step(s_, after, sc))
         cobs.append(trace[k + 1][1])
     out.append(flush(*start, csteps, cobs))
@@ -820,6 +1353,8 @@ def gen_perf_case(rng):
     if disjoint:
         numbers = rng.sample(range(0, 12), 2 * nparts)
         pools = [numbers[2 * k: 2 * k + rng.choice([1, 2])] for k in range(nparts)]
+    # 30%: some controls / program changes have no track key at all (the code reads -1 for them)
+    keyless = rng.random() < 0.3
     parts = []
     for k in range(nparts):
         tr_pool = pools[k] if disjoint else rng.choice([[0], [0, 1], [0, 0, 2], [1, 5], [0, 1, 2, 3], [7], [-1, 0]])
@@ -828,12 +1363,18 @@ def gen_perf_case(rng):
         if rng.random() < 0.3 and not disjoint:
             for x in notes:
                 if rng.random() < 0.5:
-                    x["track"] = None  # key absent: the code reads -1
+                    x["track"] = None  # key absent: PerformedNote stores 0
         foreign = [t for j in range(nparts) if j != k for t in pools[j]] if disjoint else [rng.randint(0, 9)]
-        ctrls = [dict(number=rng.choice([64, 67, 1]), t=rng.randint(0, 30), value=rng.randint(0, 127),
+        ctrls = [dict(number=rng.choice([64, 64, 67, 1]), t=rng.randint(0, 30), value=rng.choice([0, 127, rng.randint(0, 127)]),
                       track=rng.choice(tr_pool + foreign), channel=rng.randint(0, 15)) for i in range(rng.randint(0, 4))]
         progs = [dict(program=rng.randint(0, 127), t=rng.randint(0, 30), track=rng.choice(tr_pool + foreign),
                       channel=rng.randint(0, 15)) for i in range(rng.randint(0, 2))]
+        if keyless:
+            for e in ctrls + progs:
+                if rng.random() < 0.4:
+                    e["track"] = None
+            if rng.random() < 0.5:  # ... next to an event that says -1 explicitly, or a note on track -1
+                (ctrls if rng.random() < 0.5 else progs).append(dict(number=7, program=1, t=0, value=0, track=-1, channel=0))
         parts.append(dict(notes=notes, ctrls=ctrls, progs=progs))
     if disjoint:
         # make sure at least one control or program change is on another part's track
@@ -843,11 +1384,18 @@ def gen_perf_case(rng):
             parts[k]["ctrls"].append(dict(number=rng.choice([64, 7]), t=rng.randint(0, 30), value=rng.randint(0, 127), track=t, channel=0))
         else:
             parts[k]["progs"].append(dict(program=rng.randint(0, 127), t=rng.randint(0, 30), track=t, channel=0))
-    return dict(parts=parts, scale=16, again=rng.choice([None, None, "sanitize", "rewrap", "single"]), disjoint_note_tracks=disjoint)
+    return dict(parts=parts, scale=16, again=rng.choice([None, None, "sanitize", "rewrap", "single"]), disjoint_note_tracks=disjoint,
+                container=rng.choice(["list", "list", "tuple"]), unique=rng.choice(["ctor", "ctor", "later"]))
+
+
+def perf_passes(case):
+    """how many times the parts are renumbered"""
+    return 1 + (1 if case.get("again") in ("sanitize", "rewrap") else 0)
 
 
 def run_perf(case):
-    """-> list of ((part, old track), new track) over notes, controls, programs; or error string"""
+    """-> (pairs, num_tracks, details) or an error string.  pairs: ((part, old track), new track)
+    over notes, controls, programs; details: what the model and the note-array clause need."""
     import partitura.performance as P
 
     sc = float(case["scale"])
@@ -860,45 +1408,98 @@ def run_perf(case):
             if x["track"] is not None:
                 d["track"] = x["track"]
             notes.append(d)
-        ctrls = [dict(number=c["number"], time=c["t"] / sc, value=c["value"], track=c["track"], channel=c["channel"]) for c in part["ctrls"]]
-        progs = [dict(program=p["program"], time=p["t"] / sc, track=p["track"], channel=p["channel"]) for p in part["progs"]]
+        ctrls = []
+        for c in part["ctrls"]:
+            d = dict(number=c["number"], time=c["t"] / sc, value=c["value"], channel=c["channel"])
+            if c["track"] is not None:
+                d["track"] = c["track"]
+            ctrls.append(d)
+        progs = []
+        for g in part["progs"]:
+            d = dict(program=g["program"], time=g["t"] / sc, channel=g["channel"])
+            if g["track"] is not None:
+                d["track"] = g["track"]
+            progs.append(d)
         pp = P.PerformedPart(notes, controls=ctrls, programs=progs)
         pps.append(pp)
-        # PerformedNote fills a missing track with 0 at construction; what the renumbering sees is the stored value
-        olds.append(([n["track"] for n in pp.notes], [c["track"] for c in pp.controls], [p["track"] for p in pp.programs]))
+        # PerformedNote fills a missing track with 0 at construction; what the renumbering sees is the stored value;
+        # a control / program change without the key is read as -1
+        olds.append(([n["track"] for n in pp.notes], [c.get("track") for c in pp.controls], [g.get("track") for g in pp.programs]))
     try:
         again = case.get("again")
-        perf = P.Performance(pps[0] if again == "single" and len(pps) == 1 else pps)
+        arg = pps[0] if again == "single" and len(pps) == 1 else (tuple(pps) if case.get("container") == "tuple" else pps)
+        if case.get("unique") == "later":
+            perf = P.Performance(arg, ensure_unique_tracks=False)
+            perf.sanitize_track_numbers()
+        else:
+            perf = P.Performance(arg)
         if again == "sanitize":
             perf.sanitize_track_numbers()  # a second renumbering of the renumbered parts
         elif again == "rewrap":
             perf = P.Performance(list(perf.performedparts))  # a performance made of another performance's parts
+        pairs = []
+        news = []
+        for i, pp in enumerate(perf.performedparts):
+            on, oc, og = olds[i]
+            rd = lambda o: None if o is None else int(o)  # None: the event has no track key (what it is grouped with is not judged)
+            now = lambda e: None if e.get("track") is None else int(e.get("track"))  # None: still no track key, the event has no number
+            pairs += [((i, rd(o)), now(n)) for o, n in zip(on, pp.notes) if now(n) is not None]
+            pairs += [((i, rd(o)), now(c)) for o, c in zip(oc, pp.controls) if now(c) is not None]
+            pairs += [((i, rd(o)), now(g)) for o, g in zip(og, pp.programs) if now(g) is not None]
+            news.append(([now(n) for n in pp.notes], [now(c) for c in pp.controls], [now(g) for g in pp.programs]))
+        # the note array of the whole performance next to what the parts hold
+        na = perf.note_array()
+        rows = sorted((int(r["pitch"]), int(r["velocity"]), F(float(r["onset_sec"])), F(float(r["duration_sec"])), int(r["onset_tick"])) for r in na)
+        held = sorted((int(n["midi_pitch"]), int(n["velocity"]), F(float(n["note_on"])), F(float(n["sound_off"])) - F(float(n["note_on"])), F(float(n["note_off"])))
+                      for pp in perf.performedparts for n in pp.notes)
+        return pairs, perf.num_tracks, dict(olds=olds, news=news, rows=rows, held=held)
     except Exception as e:
         return "%s: %s" % (type(e).__name__, e)
-    out = []
-    for i, pp in enumerate(perf.performedparts):
-        on, oc, op = olds[i]
-        out += [((i, o), int(n["track"])) for o, n in zip(on, pp.notes)]
-        out += [((i, o), int(c["track"])) for o, c in zip(oc, pp.controls)]
-        out += [((i, o), int(p["track"])) for o, p in zip(op, pp.programs)]
-    return out, perf.num_tracks
+
+
+def oracle_perf_note_array(det):
+    """Performance.note_array(): every note of every part is reported once with its pitch, velocity,
+    onset and the duration up to its sounding end; the onset tick agrees with the onset in seconds
+    (all parts of a generated performance have ppq 480, mpq 500000)."""
+    bad = []
+    rows, held = det["rows"], det["held"]
+    if [r[:4] for r in rows] != [h[:4] for h in held]:
+        extra = [r[:4] for r in rows if r[:4] not in [h[:4] for h in held]]
+        missing = [h[:4] for h in held if h[:4] not in [r[:4] for r in rows]]
+        bad.append("Performance.note_array(): rows (pitch, velocity, onset, duration) %s are not notes of the parts; notes not reported %s (%d rows, %d notes)"
+                   % ([(a, b, float(c), float(d)) for a, b, c, d in extra[:3]], [(a, b, float(c), float(d)) for a, b, c, d in missing[:3]], len(rows), len(held)))
+    for r in rows:
+        if abs(r[4] - ticks_of(480, 500000, r[2])) > F(1, 2) + TICK_EPS:
+            bad.append("Performance.note_array(): onset_tick %d for onset %s s (ppq 480, mpq 500000)" % (r[4], float(r[2])))
+    return bad
+
+
+def term_sanitize(case, det):
+    def side(l):
+        return clist([copt(None if o is None else int(o), cz) for o in l])
+
+    ps = clist([ctuple([side(n), side(c), side(g)]) for n, c, g in det["olds"]])
+    obs = clist([ctuple([clist([cz(v) for v in n]), clist([cz(v) for v in c]), clist([cz(v) for v in g])]) for n, c, g in det["news"]])
+    return ctuple(["%d%%nat" % perf_passes(case), ps, obs])
 
 
 def oracle_tracks(pairs, num_tracks=None):
     """What the statement says and no more: after sanitising no track number is used by two
     different parts, and two events (notes, controls, program changes) of one part share a number
-    exactly when they shared one before.  Which numbers are used is not prescribed."""
+    exactly when they shared one before.  Which numbers are used is not prescribed; with which
+    track an event without a track key is grouped is not judged (only that its number is not used
+    by another part)."""
     bad = []
     fwd, owner, back = {}, {}, {}
     for old, new in pairs:
-        if fwd.setdefault(old, new) != new:
+        if old[1] is not None and fwd.setdefault(old, new) != new:
             bad.append("events of part %d that shared track %s are now on tracks %d and %d (split)" % (old[0], old[1], fwd[old], new))
-    for old, new in sorted(fwd.items()):
+    for old, new in sorted(pairs, key=lambda x: (x[0][0], x[0][1] is None, x[0][1] or 0, x[1])):
         if owner.setdefault(new, old[0]) != old[0]:
             bad.append("track number %d is used by part %d and by part %d after sanitising (not unique across parts)" % (new, owner[new], old[0]))
-        if back.setdefault((old[0], new), old[1]) != old[1]:
+        if old[1] is not None and back.setdefault((old[0], new), old[1]) != old[1]:
             bad.append("part %d: tracks %s and %s both became track %d (merged)" % (old[0], back[(old[0], new)], old[1], new))
-    return bad
+    return sorted(set(bad))
 
 
 # ----------------------------------------------------------------------------
@@ -949,9 +1550,72 @@ def shrink_hist(case, still_fails):
     return c
 
 
+CASE_TYPES = {
+    "check_history": "Z * list note * list ctrl * list Z * option (list Q) * list (list Q)",
+    "check_note_array": "Z * Z * Z * list note * list ctrl * list (Z * Z * Z * option Z)",
+    "check_note_array_exact": "Z * Z * Z * list note * list ctrl * list (Z * Z * Z * option Z)",
+    "check_steps": "Z * list note * list Q * list ctrl * list step * list (list Q * list Q)",
+    "check_tracks": "list ((Z * Z) * Z)",
+    "check_pp_new": "Z * Z * Z * list ndict * list ctrl * option (list Q * list (Z * Z * Z * option Z))",
+    "check_pp_new_exact": "Z * Z * Z * list ndict * list ctrl * option (list Q * list (Z * Z * Z * option Z))",
+    "check_pnote": "ndict * list edit * option pnote * list (option pnote)",
+    "check_sanitize": "nat * list ptracks * list (list Z * list Z * list Z)",
+    "check_sanitize_exact": "nat * list ptracks * list (list Z * list Z * list Z)",
+}
+
+
+def coq_failing(ctx, name, imports, terms, checker, shard):
+    """ctx.coq_failing with every case term cast to the checker's case type: a shard whose cases all
+    have an empty list in some position (a last shard of one or two cases) would otherwise leave the
+    type of `[]` unresolved and make coqc reject the file."""
+    if not terms:
+        return []
+    defs = "Definition pv_ty := (%s)%%type." % CASE_TYPES[checker]
+    return ctx.coq_failing(name, imports, defs, ["(%s : pv_ty)" % t for t in terms], checker, shard=shard)
+
+
+def empty_part_checks(ctx):
+    """The empty note list is a note list: a part without notes (what load_performance_midi creates for a
+    track holding only controls) is built, takes threshold assignments, has an empty note array, is rebuilt
+    from it, and sits in a performance next to other parts."""
+    import partitura.performance as P
+
+    def go():
+        out = []
+        ctrls = [dict(number=64, time=0.5, value=127, track=0, channel=0), dict(number=64, time=2.0, value=0, track=0, channel=0)]
+        for controls in (None, [], ctrls):
+            what = "PerformedPart([], controls=%s)" % ("None" if controls is None else "%d pedal events" % len(controls))
+            try:
+                pp = P.PerformedPart([], controls=controls, sustain_pedal_threshold=64)
+                pp.sustain_pedal_threshold = 10
+                na = pp.note_array()
+                if len(na) != 0:
+                    out.append("%s.note_array() has %d rows" % (what, len(na)))
+                rb = P.PerformedPart.from_note_array(na)
+                if len(rb.notes) != 0:
+                    out.append("from_note_array of the empty note array of %s has %d notes" % (what, len(rb.notes)))
+                other = P.PerformedPart([dict(id="n0", midi_pitch=60, note_on=0.0, note_off=1.0, velocity=64)], controls=list(ctrls))
+                perf = P.Performance([pp, other])
+                pna = perf.note_array()
+                if len(pna) != 1 or float(pna["duration_sec"][0]) != 2.0:
+                    out.append("Performance([empty part, part]).note_array(): %s" % (pna,))
+            except Exception as e:
+                out.append("%s: construction / threshold assignment / note_array / from_note_array(note_array()) / Performance raised %s: %s" % (what, type(e).__name__, e))
+        return out
+
+    bad, tmo = guarded(go)
+    ctx.evaluations += 3
+    if tmo or bad:
+        ctx.violation("a part without notes: " + (tmo or "; ".join(bad[:3])), {"kind": "empty-part", "failures": bad or [tmo]})
+    else:
+        ctx.count("empty_part:built_assigned_tabulated_rebuilt", 3)
+
+
 def judge(case):
     tie = has_order_tie(case)
-    res = run_impl(case)
+    res, tmo = guarded(run_impl, case)
+    if tmo:
+        res = dict(obs0=None, hist=[], err="building the part / assigning thresholds " + tmo, na=None, rebuilt=None, fresh=[], vel=None)
     return oracle(case, res, tie), res, tie
 
 
@@ -967,14 +1631,21 @@ def run(ctx):
                 "from_note_array(note_array()) 10%; 45% of the assigned thresholds equal the current one; judged after construction and after every step. "
                 "Time grid 1/16 s (4 in 7), 1, 1/4, 1/1024 s. Performances: 1-4 parts, notes / controls / program changes on shared, missing and further "
                 "track numbers, 35% of the multi-part ones with pairwise disjoint note tracks and a control or program change on a track another part's notes "
-                "use; 40% sanitised a second time. "
+                "use; 40% sanitised a second time; 30% with controls / program changes without a track key, a third built with ensure_unique_tracks=False and "
+                "sanitised afterwards, a third given as a tuple, pedal events that extend notes (Performance.note_array() judged). "
+                "45% of the main and history cases hand the notes over in a 'shape': times as float / int / numpy float32 / float64, optional note keys absent, PerformedNote "
+                "objects, stored ticks (note_on_tick / note_off_tick by the library's own conversion), carried sound_off, controls without track / channel, controls=None; "
+                "pitch 0 / 127 in 25% of the cases, velocity 0 / 127 / 1 / 126 in 12% of the notes, onset 0 in 10%. Histories also: ppq / mpq assigned (6% of the steps), "
+                "note_array() judged after construction and after every step under the current ppq / mpq; 150 / 3000 histories start from a part loaded by load_performance_midi "
+                "from an in-memory type-1 file (ppq 512, 1-3 tempi in the first track, notes and controls in the second, 30% merge_tracks=True). "
+                "PerformedNote stream: 1200 / 30000 dicts (35% with one field outside the statement) each followed by 0-4 assignments note[key] = value. A part without notes: 3 checks. "
                 "Non-trivial = a case in which at least one note's sounding end differs from its release under at least one of the thresholds "
                 "(pedal extension, possibly clipped by a re-strike), a history with such a state or with a carried sound_off different from the release, "
                 "a performance with more than one (part, track) pair; counted distinct by the full case.")
-    ctx.trusted = ["Coq 8.16.1 kernel incl. vm_compute", "harness/props/c14.py (generator, literal printer, Python oracle)",
-                   "numpy argsort on distinct keys sorts ascending"]
+    ctx.trusted = ["Coq 8.16.1 kernel incl. vm_compute", "harness/props/c14.py (generator, in-memory MIDI writer, literal printer, Python oracle)",
+                   "mido (MIDI file object handed to load_performance_midi)", "numpy argsort on distinct keys sorts ascending"]
     ctx.assumptions = [
-        "times are multiples of 1/scale s (scale 1, 4, 16 or 1024) with numerators below 2^16, so that the float64/float32 arithmetic of the implementation "
+        "times are multiples of 1/scale s (scale 1, 4, 16, 1024; 2048 for parts loaded from MIDI) with numerators below 2^17, so that the float64/float32 arithmetic of the implementation "
         "is exact; compared exactly as rationals",
         "histories: the oracle and the Coq model are fed the notes / controls / threshold the harness's own bookkeeping of the steps (abs_apply) arrives at; "
         "the part's pitch, onset and release columns are compared with that bookkeeping after every step; notes carrying a sound_off below their release "
@@ -993,6 +1664,16 @@ def run(ctx):
         "track renumbering: required is that no new number is used by two parts and that events of one part share a number iff they did before "
         "(notes, controls, programs); which numbers are used and num_tracks are not judged",
         "float32 columns of note_array and the rebuilt part are compared with relative tolerance 2^-20",
+        "PerformedNote: required is that a note the statement is about (0 <= onset <= release, MIDI pitch / velocity, carried sounding end >= release, stored ticks ordered) "
+        "is accepted and stored as given, and that an assignment keeping 0 <= onset <= release <= sounding end is accepted and stored; what is rejected and which defaults are "
+        "stored (velocity 60) is compared with the model as an obligation only",
+        "stored ticks (note_on_tick): the tick columns of note_array are judged only while the stored ticks are consistent with the note's seconds under the part's ppq / mpq "
+        "(not after an onset edit, a ppq / mpq change, or for a MIDI file whose tempo map is not the part's single mpq)",
+        "events without a track key: only uniqueness of their new number across parts is required; their grouping (the code reads -1) is compared with the model as an obligation only; "
+        "an implementation that leaves such an event without a number is not judged for it",
+        "parts loaded from MIDI: ppq 512 and tempi 250000 / 500000 / 1000000 make every time a multiple of 1/2048 s, exact in the loader's float arithmetic; same-pitch notes that "
+        "touch or overlap get different channels (a MIDI stream cannot tell them apart otherwise)",
+        "every implementation call runs under a budget of 60 s CPU time (ITIMER_VIRTUAL / SIGVTALRM, exception derived from BaseException); exceeding it is reported as 'did not terminate'",
     ]
     ok, why = ctx.coq_props(expect_min=EXPECT_MIN)
     if not ok:
@@ -1019,6 +1700,7 @@ def run(ctx):
         cases.append((gen_case(rng, tie_stream=True), "tie?"))
 
     hist_terms, hist_cases, na_terms, na_cases = [], [], [], []
+    pp_terms, pp_cases = [], []
     n_viol = 0
     tie_terms, tie_cases = [], []
     for case, kind in cases:
@@ -1053,6 +1735,24 @@ def run(ctx):
             ctx.count("cases:threshold_127")
         if len(ctx.samples) < 3 and ext:
             ctx.sample({"case": case, "sound_off_after_construction": [float(x) for x in res["obs0"]]})
+        if not tie:
+            for t in {case["thr"]} | set(case["thrs"]):
+                for why_ in end_reasons(case, t):
+                    ctx.count("end_decided_by:" + why_)
+        shp = case.get("shape")
+        if shp:
+            ctx.count("shape:times_as_%s" % shp["num"])
+            if shp.get("obj"):
+                ctx.count("shape:PerformedNote_objects_handed_over")
+            if any(x.get("omit") for x in case["notes"]):
+                ctx.count("shape:optional_note_keys_absent")
+            if any(x.get("tk") for x in case["notes"]):
+                ctx.count("shape:notes_carry_stored_ticks")
+            if any("so" in x for x in case["notes"]):
+                ctx.count("shape:notes_carry_sound_off")
+            if not tie:
+                pp_terms.append(term_pp_new(case, res))
+                pp_cases.append((case, res))
         if tie:
             tie_terms.append(term_history(case, res))
             tie_cases.append(case)
@@ -1065,7 +1765,7 @@ def run(ctx):
     imports = "From PV Require Import Lib.Base Model.C14."
     ctx.log("main stream judged in Python (%d cases)" % len(cases))
     if ok:
-        failing = ctx.coq_failing("hist", imports, "", hist_terms, "check_history", shard=250)
+        failing = coq_failing(ctx, "hist", imports, hist_terms, "check_history", shard=250)
         ctx.obligation("correspondence: Model.C14.construct / set_threshold = sound_off column of PerformedPart after construction and after "
                        "each of %d threshold assignments, %d cases (equal, or >= release where the model's value is the closing moment the statement does not fix)"
                        % (sum(len(c["thrs"]) for c, _ in hist_cases), len(hist_terms)),
@@ -1075,7 +1775,7 @@ def run(ctx):
             ctx.violation("model and implementation disagree on the sound_off column (the theorems of Props/C14.v no longer describe this code)",
                           {"kind": "pedal-model", "case": case, "impl_sound_off": [float(x) for x in res["obs0"]],
                            "impl_history": [[float(x) for x in h] for h in res["hist"]]})
-        failing = ctx.coq_failing("na", imports, "", na_terms, "check_note_array", shard=250)
+        failing = coq_failing(ctx, "na", imports, na_terms, "check_note_array", shard=250)
         ctx.obligation("correspondence: rows of PerformedPart.note_array() have the note's pitch and velocity, the onset tick nearest to the onset in "
                        "seconds under ppq/mpq and, where no pedal extends the note, a tick duration within one tick of the duration in seconds "
                        "(Model.C14.check_note_array; the bounds of onset_tick_agrees / duration_tick_agrees), %d cases" % len(na_terms), not failing, failing[:5])
@@ -1084,13 +1784,60 @@ def run(ctx):
             ctx.violation("model and implementation disagree on note_array()", {"kind": "note-array-model", "case": case,
                                                                                  "impl_rows": [{k: (float(v) if isinstance(v, F) else v) for k, v in r.items()} for r in res["na"]]})
         # agreement with the model's own tick formulas (round half even; tick(release) - tick(onset)) is counted, not required
-        xfail = ctx.coq_failing("na_exact", imports, "", na_terms, "check_note_array_exact", shard=250)
+        xfail = coq_failing(ctx, "na_exact", imports, na_terms, "check_note_array_exact", shard=250)
         ctx.count("note_array:rows_equal_model_formulas", len(na_terms) - len(xfail))
         ctx.count("note_array:rows_differ_from_model_formulas(reported only)", len(xfail))
         # tie stream: agreement with the stable-order model is counted, not required
-        tfail = ctx.coq_failing("tie", imports, "", tie_terms, "check_history", shard=250) if tie_terms else []
+        tfail = coq_failing(ctx, "tie", imports, tie_terms, "check_history", shard=250) if tie_terms else []
         ctx.count("tie_stream:agrees_with_stable_order_model", len(tie_terms) - len(tfail))
         ctx.count("tie_stream:differs_from_stable_order_model(reported only)", len(tfail))
+
+        imports_n = "From PV Require Import Lib.Base Model.C14 Model.C14_Note."
+        failing = coq_failing(ctx, "pp_new", imports_n, pp_terms, "check_pp_new", shard=250)
+        ctx.obligation("correspondence: Model.C14_Note.pp_new (PerformedNote defaults and field checks per dict, validated write-back of the computed "
+                       "sounding ends) and note_array_n (stored onset tick wins) = sound_off column and note_array rows of PerformedPart built from dicts with "
+                       "optional keys absent / carried sound_off / stored ticks, %d cases" % len(pp_terms), not failing, failing[:5])
+        for i in failing[:3]:
+            case, res = pp_cases[i]
+            ctx.violation("model and implementation disagree on a part built from note dicts (Model.C14_Note.pp_new; the theorems of Props/C14.v no longer describe this code)",
+                          {"kind": "pedal-model", "case": case, "impl_sound_off": [float(x) for x in res["obs0"]],
+                           "impl_history": [[float(x) for x in h] for h in res["hist"]]})
+        xfail = coq_failing(ctx, "pp_new_exact", imports_n, pp_terms, "check_pp_new_exact", shard=250)
+        ctx.count("pp_new:rows_equal_model_formulas(default velocity 60, stored tick wins; counted only)", len(pp_terms) - len(xfail))
+
+    # ---- PerformedNote: field validation at construction and on assignment
+    n_pn = 1200 if quick else 30000
+    pn_terms, pn_valid = [], []
+    for i in range(n_pn):
+        pc = gen_pnote_case(rng)
+        r, tmo = guarded(run_pnote, pc)
+        ctx.evaluations += 1
+        if tmo:
+            ctx.violation("PerformedNote " + tmo, {"kind": "pnote", "case": pc})
+            continue
+        f0, outs, errs = r
+        bad = oracle_pnote(pc, f0, outs)
+        if bad:
+            if n_viol < 8:
+                ctx.violation("PerformedNote field validation: " + "; ".join(bad[:3]), {"kind": "pnote", "case": pc, "failures": bad[:5]})
+            n_viol += 1
+            continue
+        valid = pn_dict_valid(pc["d"])
+        ctx.count("pnote:dict_%s" % ("valid" if valid else "outside_the_statement(%s)" % ("rejected" if f0 is None else "accepted")))
+        if valid and pc["edits"]:
+            ctx.nontrivial("pnote" + json.dumps(pc, sort_keys=True))
+        for (key, v), o in zip(pc["edits"], outs):
+            ctx.count("pnote:assign_%s_%s" % (key if key in TIME_KEYS + ("velocity", "pitch", "note_on_tick", "note_off_tick") else "other_key", "accepted" if o is not None else "rejected"))
+        pn_terms.append(term_pnote(pc, f0, outs))
+        pn_valid.append(valid)
+    if ok:
+        failing = coq_failing(ctx, "pnote", imports_n, pn_terms, "check_pnote", shard=600)
+        # acceptance of what the statement is about is judged by the direct oracle above; what is rejected / which defaults are stored
+        # is outside the statement, so a disagreement with the model is recorded as a failed obligation (model drift), not as a violation
+        ctx.obligation("correspondence: Model.C14_Note.pn_new / pn_set (defaults, _validate_* per key, accepted keys) = PerformedNote(dict) and note[key] = value: "
+                       "accepted or raised, stored fields after every assignment, %d notes with %d assignments (%d of the dicts are notes the statement is about)"
+                       % (len(pn_terms), sum(t.count("(E") + t.count("EOther") + t.count("EBadKey") for t in pn_terms), sum(pn_valid)), not failing, failing[:5])
+    empty_part_checks(ctx)
 
     # ---- operation histories
     ctx.log("main stream compared in Coq")
@@ -1099,6 +1846,8 @@ def run(ctx):
     hcases = [(c, "corpus") for c in hist_corpus_cases()]
     hcases += [(gen_hist_case(rng), "hist") for _ in range(n_hist)]
     hcases += [(gen_hist_case(rng, tie_stream=True), "tie?") for _ in range(n_hist_tie)]
+    hcases += [(gen_midi_hist_case(rng), "midi") for _ in range(150 if quick else 3000)]
+    sna_terms = []
     st_terms, st_cases, stt_terms = [], [], []
     n_hviol = 0
     n_hist_steps = 0
@@ -1138,6 +1887,22 @@ def run(ctx):
             ctx.count("histories:edit_then_same_threshold_assigned")
         if any(ext) or carried:
             ctx.nontrivial("hist" + json.dumps(case, sort_keys=True))
+        if case.get("midi"):
+            ctx.count("histories:part_loaded_by_load_performance_midi")
+            if len(case["midi"]["tempos"]) > 1 and not case["midi"].get("merge"):
+                ctx.count("histories:loaded_midi_times_moved_after_construction(tempo change in another track)" + ("_pedal_extends" if ext[0] else ""))
+        if any(x.get("tk") for x in case["notes"]):
+            ctx.count("histories:notes_carry_stored_ticks")
+        if any(x.get("tk") and not x.get("tk_stale") for st, _ in trace[1:] for x in st["notes"]):
+            ctx.count("histories:stored_ticks_judged_after_a_step")
+        if not tie:
+            # the rows of note_array() in the last state of the history, for the Coq bounds (stale stored ticks left out)
+            st_l, o_l = trace[-1]
+            if not any(x.get("tk") and x.get("tk_stale") for x in st_l["notes"]):
+                rows = [ctuple([cz(r["pitch"]), cz(r["velocity"]), cz(r["onset_tick"]), copt(r["duration_tick"] if o_l["so"][i] == o_l["off"][i] else None, cz)])
+                        for i, r in enumerate(o_l["na"])]
+                sna_terms.append(ctuple([cz(st_l["ppq"]), cz(st_l["mpq"]), cz(st_l["thr"]), clist([c_note(x, sc, o_l["vel"][i]) for i, x in enumerate(st_l["notes"])]),
+                                         clist([c_ctrl(c, sc) for c in st_l["ctrls"]]), clist(rows)]))
         if len(ctx.samples) < 5 and any(ext[k] and noped[k + 1] for k in range(len(trace) - 1)) and len(steps) <= 3:
             ctx.sample({"history_case": case, "sound_off_after_each_step": [[float(x) for x in o["so"]] for _, o in trace]})
         for t in terms_steps(case, trace):
@@ -1150,7 +1915,7 @@ def run(ctx):
             ctx.count("histories:some_sounding_end_left_open_by_the_statement")
     ctx.log("histories judged in Python (%d)" % len(hcases))
     if ok:
-        failing = ctx.coq_failing("steps", imports, "", st_terms, "check_steps", shard=200)
+        failing = coq_failing(ctx, "steps", imports, st_terms, "check_steps", shard=200)
         ctx.obligation("correspondence: Model.C14.new_part_carrying / apply_step (SetThr, SetCtrls, SetNotes, Rebuild, RoundTrip) = note_off and sound_off "
                        "columns of the PerformedPart after construction from notes carrying sound_off values and after each of %d steps, %d histories "
                        "(equal, or >= release where the model's value is the closing moment the statement does not fix)"
@@ -1160,25 +1925,34 @@ def run(ctx):
             ctx.violation("model and implementation disagree on the sound_off column after a history of operations "
                           "(the theorems of Props/C14.v no longer describe this code)",
                           {"kind": "history-model", "case": case, "impl_sound_off_after_each_step": [[float(x) for x in o["so"]] for _, o in trace]})
-        tfail = ctx.coq_failing("steps_tie", imports, "", stt_terms, "check_steps", shard=200) if stt_terms else []
+        failing = coq_failing(ctx, "state_na", imports, sna_terms, "check_note_array", shard=300)
+        ctx.obligation("correspondence: rows of note_array() in the LAST state of each history (after edits, rebuilds, round trips, ppq / mpq changes) have the "
+                       "note's pitch and velocity, the onset tick nearest to the onset under the part's current ppq / mpq and, where no pedal extends the note, a tick "
+                       "duration within one tick (Model.C14.check_note_array), %d states" % len(sna_terms), not failing, failing[:5])
+        if failing:
+            ctx.violation("model and implementation disagree on note_array() after a history of operations", {"kind": "history-model", "case": "state_na term %d" % failing[0]}, no_input=True)
+        tfail = coq_failing(ctx, "steps_tie", imports, stt_terms, "check_steps", shard=200) if stt_terms else []
         ctx.count("tie_histories:agree_with_stable_order_model", len(stt_terms) - len(tfail))
         ctx.count("tie_histories:differ_from_stable_order_model(reported only)", len(tfail))
 
     # ---- track renumbering
     ctx.log("histories compared in Coq")
     tr_terms, tr_cases = [], []
+    sn_terms, sn_cases, snk_terms = [], [], []
     for i in range(n_perf):
         pc = gen_perf_case(rng)
-        r = run_perf(pc)
+        r, tmo = guarded(run_perf, pc)
         ctx.evaluations += 1
-        if isinstance(r, str):
-            ctx.violation("Performance([...]) raised: " + r, {"kind": "tracks", "case": pc})
+        if tmo or isinstance(r, str):
+            if n_viol < 8:
+                ctx.violation("building / sanitising a Performance " + (tmo or "raised: " + r), {"kind": "tracks", "case": pc})
+            n_viol += 1
             continue
-        pairs, nt = r
-        bad = oracle_tracks(pairs)
+        pairs, nt, det = r
+        bad = oracle_tracks(pairs) + oracle_perf_note_array(det)
         if bad:
             if n_viol < 8:
-                ctx.violation("track renumbering: " + "; ".join(bad[:3]), {"kind": "tracks", "case": pc, "pairs": pairs})
+                ctx.violation(("" if bad[0].startswith("Performance.note_array") else "track renumbering: ") + "; ".join(bad[:3]), {"kind": "tracks", "case": pc, "pairs": pairs})
             n_viol += 1
             continue
         if len({o for o, _ in pairs}) > 1:
@@ -1186,16 +1960,52 @@ def run(ctx):
         ctx.count("perf:parts=%d" % len(pc["parts"]))
         if pc.get("again"):
             ctx.count("perf:again=%s" % pc["again"])
+        if pc.get("unique") == "later":
+            ctx.count("perf:ensure_unique_tracks=False_then_sanitize_track_numbers()")
+        if pc.get("container") == "tuple":
+            ctx.count("perf:parts_given_as_tuple")
         if pc.get("disjoint_note_tracks"):
             ctx.count("perf:note_tracks_disjoint_but_control_or_program_on_another_parts_track")
-        tr_terms.append(clist([ctuple([ctuple([cz(o[0]), cz(o[1])]), cz(nw)]) for o, nw in pairs]))
+        keyless = any(o is None for part in det["olds"] for side in part for o in side)
+        unnumbered = any(v is None for part in det["news"] for side in part for v in side)
+        if keyless:
+            ctx.count("perf:control_or_program_without_track_key")
+        if unnumbered:
+            ctx.count("perf:event_without_track_key_left_without_number(not judged, not modelled)")
+        if any(h[3] != h[4] - h[2] for h in det["held"]):
+            ctx.count("perf:pedal_extends_a_note_reported_by_Performance.note_array()")
+        if nt == len({nw for _, nw in pairs}):
+            ctx.count("perf:num_tracks_equals_number_of_new_track_numbers(counted only)")
+        keyed = [(o, nw) for o, nw in pairs if o[1] is not None]
+        tr_terms.append(clist([ctuple([ctuple([cz(o[0]), cz(o[1])]), cz(nw)]) for o, nw in keyed]))
         tr_cases.append((pc, pairs))
+        if unnumbered:
+            pass
+        elif keyless:
+            snk_terms.append(term_sanitize(pc, det))
+        else:
+            sn_terms.append(term_sanitize(pc, det))
+            sn_cases.append((pc, pairs))
     if ok:
-        failing = ctx.coq_failing("tracks", imports, "", tr_terms, "check_tracks", shard=400)
+        failing = coq_failing(ctx, "tracks", imports, tr_terms, "check_tracks", shard=400)
         ctx.obligation("correspondence: Model.C14.track_map induces the same partition of the (part, track) pairs of notes, controls and programs as "
                        "Performance.sanitize_track_numbers (same number iff same part and same old track), %d performances" % len(tr_terms), not failing, failing[:5])
         for i in failing[:3]:
             ctx.violation("model and implementation disagree on track renumbering", {"kind": "tracks-model", "case": tr_cases[i][0], "pairs": tr_cases[i][1]})
+        imports_t = "From PV Require Import Lib.Base Model.C14 Model.C14_Note Model.C14_Trk."
+        failing = coq_failing(ctx, "sanitize", imports_t, sn_terms, "check_sanitize", shard=400)
+        ctx.obligation("correspondence: Model.C14_Trk.sanitize (pairs (part, track) of every note, control and program change, numbered in sorted order, "
+                       "written back event by event; once or twice) keeps the shape of every part and induces the same partition of the events as "
+                       "Performance.sanitize_track_numbers, %d performances" % len(sn_terms), not failing, failing[:5])
+        for i in failing[:3]:
+            ctx.violation("model and implementation disagree on track renumbering (Model.C14_Trk.sanitize)", {"kind": "tracks-model", "case": sn_cases[i][0], "pairs": sn_cases[i][1]})
+        xfail = coq_failing(ctx, "sanitize_exact", imports_t, sn_terms, "check_sanitize_exact", shard=400)
+        ctx.count("perf:new_numbers_equal_model_numbers(sorted order; counted only)", len(sn_terms) - len(xfail))
+        # events without a track key: the model reads -1 as the code does; with which track such an event is grouped is not
+        # part of the statement, so a disagreement is recorded as an obligation (model drift), not as a violation
+        kfail = coq_failing(ctx, "sanitize_keyless", imports_t, snk_terms, "check_sanitize", shard=400) if snk_terms else []
+        ctx.obligation("correspondence (outside the statement: events without a track key are grouped with track -1): Model.C14_Trk.sanitize = "
+                       "Performance.sanitize_track_numbers, %d performances" % len(snk_terms), not kfail, kfail[:5])
     if not ok and not ctx.violations:
         ctx.violation("proof obligations of Props/C14.v no longer check: " + why, {"theorem_or_build": why}, no_input=True)
 
@@ -1254,7 +2064,25 @@ def replay(obj):
         print("oracle:", bad or "holds")
     elif kind in ("tracks", "tracks-model"):
         rr = run_perf(r["case"])
-        print("implementation:", rr)
-        if not isinstance(rr, str):
-            print("oracle:", oracle_tracks(*rr) or "holds")
+        if isinstance(rr, str):
+            print("implementation raised:", rr)
+        else:
+            pairs, nt, det = rr
+            print("implementation: ((part, old track), new track):", pairs, "num_tracks", nt)
+            print("Performance.note_array() rows (pitch, velocity, onset, duration, onset_tick):", [(a, b, float(c), float(d), e) for a, b, c, d, e in det["rows"]])
+            print("oracle:", (oracle_tracks(pairs) + oracle_perf_note_array(det)) or "holds")
+    elif kind == "pnote":
+        f0, outs, errs = run_pnote(r["case"])
+        print("implementation: after construction:", f0, "after each assignment:", outs, "errors:", errs)
+        print("oracle:", oracle_pnote(r["case"], f0, outs) or "holds")
+    elif kind == "empty-part":
+        class _C:
+            evaluations = 0
+
+            def violation(self, what, obj, **kw):
+                print("oracle:", what)
+
+            def count(self, *a):
+                print("oracle: holds")
+        empty_part_checks(_C())
     return 0
